@@ -12,7 +12,7 @@ from common import *
 PROP = "C13"
 META = {
  "engine": "F-pure-functions",
- "text": "Coq theorems (Props/C13.v, closed under the global context) prove for ARBITRARY ascending scales, octave sizes, tonics and all integer degrees/notes: the degree formula, strict monotonicity, degree-in-key, pitch-class invariance of membership, and that nearest_note is in key with no in-key note strictly closer; the built-in scale table is regenerated from the source on every run and proved to lie in that domain; note-name/MIDI-number round trips are proved by complete enumeration. The model is tied to /repo by a correspondence check run on every invocation: Key.get/__contains__/nearest_note, PFilterByKey/PNearestNoteInKey/PDegree and the util name functions are evaluated on the property's complete finite domain (all named scales x 12 tonics x notes 0..127 x degrees -64..64) plus random user scales, and compared inside Coq (vm_compute) with the model; an independent pitch-class-set oracle judges every implementation result and supplies the failing input. Further theorems (C13_progression_aligned, C13_filter/snap/degree/rest_progression) cover the tonal patterns when the KEY is itself a pattern: every step consumes one note and one key, rests included, so output i is in / nearest in / the degree of key i; C13_session_frame/_reconfigure say that the definition of a key is the last one given to that key, whatever other keys exist (a scale's name is not part of the model). The check runs sessions - one process each - in which several keys that agree in name, tonic, octave size or scale object but differ in semitones are built, re-configured and queried in varying order, every key again after all others were built and queried, and the tonal patterns run over PSequence-s of those keys under melodies with rests; every result is judged against the key's own semitones (step i against key i) and compared with the model evaluated on the definition the model derives from the session. Held objects (Tonal/Held.v: a store of Scale objects, the registry Scale.dict, Key objects referring to Scale objects; theorems C13_held_retune, C13_held_scale_object_retuned, C13_held_frame, C13_held_history_only, C13_held_nextn_current, C13_held_positions, C13_held_filter/snap/degree, C13_named_scale, C13_copies): further sessions keep Key objects and tonal-pattern objects alive and re-tune the keys IN PLACE (key.tonic =, key.scale =, scale.semitones = / re-ordered in place, scale.octave_size =) between the nextn() calls of the same pattern object and between queries that ask the same notes and degrees again; user scales with octave sizes 5..24 are reached through their registered NAME (Key(t, name), Key(note, name), Key('note name'), Key(t, Scale.byname(name)), an event's key string) and scales / keys are copied (Scale.copy(), copy.copy, copy.deepcopy, constructor); every answer is judged by the oracle against the key as it is at that moment.",
+ "text": "Coq theorems (Props/C13.v, closed under the global context) prove for ARBITRARY ascending scales, octave sizes, tonics and all integer degrees/notes: the degree formula, strict monotonicity, degree-in-key, pitch-class invariance of membership, and that nearest_note is in key with no in-key note strictly closer; the built-in scale table is regenerated from the source on every run and proved to lie in that domain; note-name/MIDI-number round trips are proved by complete enumeration. The model is tied to /repo by a correspondence check run on every invocation: Key.get/__contains__/nearest_note, PFilterByKey/PNearestNoteInKey/PDegree and the util name functions are evaluated on the property's complete finite domain (all named scales x 12 tonics x notes 0..127 x degrees -64..64) plus random user scales, and compared inside Coq (vm_compute) with the model; an independent pitch-class-set oracle judges every implementation result and supplies the failing input. Further theorems (C13_progression_aligned, C13_filter/snap/degree/rest_progression) cover the tonal patterns when the KEY is itself a pattern: every step consumes one note and one key, rests included, so output i is in / nearest in / the degree of key i; C13_session_frame/_reconfigure say that the definition of a key is the last one given to that key, whatever other keys exist (a scale's name is not part of the model). The check runs sessions - one process each - in which several keys that agree in name, tonic, octave size or scale object but differ in semitones are built, re-configured and queried in varying order, every key again after all others were built and queried, and the tonal patterns run over PSequence-s of those keys under melodies with rests; every result is judged against the key's own semitones (step i against key i) and compared with the model evaluated on the definition the model derives from the session. Held objects (Tonal/Held.v: a store of Scale objects, the registry Scale.dict, Key objects referring to Scale objects; theorems C13_held_retune, C13_held_scale_object_retuned, C13_held_frame, C13_held_history_only, C13_held_nextn_current, C13_held_positions, C13_held_filter/snap/degree, C13_named_scale, C13_copies): further sessions keep Key objects and tonal-pattern objects alive and re-tune the keys IN PLACE (key.tonic =, key.scale =, scale.semitones = / re-ordered in place, scale.octave_size =) between the nextn() calls of the same pattern object and between queries that ask the same notes and degrees again; user scales with octave sizes 5..24 are reached through their registered NAME (Key(t, name), Key(note, name), Key('note name'), Key(t, Scale.byname(name)), an event's key string) and scales / keys are copied (Scale.copy(), copy.copy, copy.deepcopy, constructor); every answer is judged by the oracle against the key as it is at that moment. Same-named constructions: between name lookups the sessions construct scales / weighted scales / Scale.fromnotes under names that are registered already (user names and library names), unnamed WeightedScales (default name 'major') and copies of registered scales that are edited afterwards, then look the name up again (new keys by name, key strings that are re-read on every use): a registered name keeps denoting the scale first registered under it (C13_named_scale, C13_name_denotes_stable).",
  "note": "Trusted: Coq kernel + VM; gen_tables.py; the Python harness; that Python int //, % are floor division (Z.div/Z.modulo). Modelled not verified: nothing float; Key built from names uses Scale.byname/note_name_to_midi_note (covered by the correspondence only for built-in names). nearest_note is compared by distance and membership, so a different tie-break is not an alarm. Compared with the model only, not judged by the oracle: Key.semitones, the number of values a tonal pattern yields when one stream ends first. PSequence(keys, r) yielding keys*r is taken from its documentation. Object identity is modelled (which Scale object a key refers to), but in-place operations are generated only on Scale objects that are private to the session's keys (never on the library's global scales, on scales reachable by name, or list re-ordering on objects in a copy relation - Scale.copy() shares the semitone list with its original). Which of two scales registered under the same name Scale.byname returns is modelled (the first) but only probed with names that are unique in the session. Recorded finding (known_findings.d/C13.json): Scale.copy() drops the octave size.",
 }
 HEADER = """From Isobar Require Import Base.Prelude Tonal.Key Tonal.Progression Generated.Tables.
@@ -387,6 +387,7 @@ def gen_held_session(rng, info, si):
         how = rng.choice(["Key(t,name)", "Key(note,name)", "Key('note name')", "Key(t,byname)", "string"])
         ops.append({"op": "keynamed", "slot": slot, "name": name, "tonic": rng.choice(tonics), "how": how})
         slots.append(slot)
+        names_in_use.append(name)
         cur_scale[slot] = ("name", name) if sid is None else sid
         if how == "string":
             strings.add(slot)
@@ -432,6 +433,62 @@ def gen_held_session(rng, info, si):
             ops.append({"op": "q", "slot": slot, "fn": fn})
         else:
             ops.append({"op": "q", "slot": slot, "fn": fn, "xs": degrees if fn in ("get", "getitem", "event", "scaleget") else notes})
+
+    names_in_use = []                                   # scale names that keys of this session were built from
+
+    def same_name():
+        """an unrelated construction under a name that is registered already: a scale / weighted scale / fromnotes called like a
+        scale in use (user or library), an unnamed WeightedScale (its default name is "major"), or a copy of a registered scale
+        that is edited afterwards - then the name is looked up again"""
+        u = rng.random()
+        target = rng.choice(names_in_use) if names_in_use and rng.random() < 0.8 else rng.choice([x for x in builtin if " " not in x[0]])[0]
+        sid = len(sids)
+        if u < 0.4:
+            o = rng.choice(osizes + [12])
+            semis = rand_scale(rng, o)
+            ops.append({"op": "scale", "id": sid, "how": rng.choice(["named", "named", "weighted", "fromnotes"]), "name": target, "semis": semis, "osize": o})
+            sem[sid] = (semis, o)
+            sids.append(sid)
+            private.append(sid)
+            if rng.random() < 0.5:
+                new_key(sid)
+        elif u < 0.6:
+            semis = rand_scale(rng, 12)
+            ops.append({"op": "scale", "id": sid, "how": "weighted-unnamed", "semis": semis, "osize": 12})
+            sem[sid] = (semis, 12)
+            sids.append(sid)
+            private.append(sid)
+            target = "major"
+        else:
+            src = [x for x in registered if "verifU%dx%d" % (si, x) == target]
+            if not src:
+                return
+            how = rng.choice(["copy()", "copy()", "copy.copy", "copy.deepcopy"])
+            ops.append({"op": "scalecopy", "id": sid, "src": src[0], "how": how})
+            sids.append(sid)
+            sem[sid] = sem[src[0]]
+            frozen.update([sid, src[0]])
+            if rng.random() < 0.8:                      # the copy is edited: `c = s.copy(); c.semitones = [...]`
+                new = rand_scale(rng, sem[sid][1])
+                ops.append({"op": "setsemis", "scale": sid, "semis": new, "how": "assign"})
+                sem[sid] = (new, sem[sid][1])
+            new_key(sid)
+        # the name is looked up again: a new key by that name, and the string slots (which build Key(string) on every use)
+        if target in [b[0] for b in builtin] or any("verifU%dx%d" % (si, x) == target for x in registered):
+            slot = len(slots)
+            how = rng.choice(["Key(t,name)", "Key(note,name)", "Key('note name')", "Key(t,byname)", "string"])
+            ops.append({"op": "keynamed", "slot": slot, "name": target, "tonic": rng.choice(tonics), "how": how})
+            slots.append(slot)
+            rs = [x for x in registered if "verifU%dx%d" % (si, x) == target]
+            cur_scale[slot] = rs[0] if rs else ("name", target)
+            if not rs:
+                b = [x for x in builtin if x[0] == target][0]
+                sem[("name", target)] = (list(b[1]), b[2])
+            if how == "string":
+                strings.add(slot)
+            query(slot, rng.choice(["get", "contains", "event", "nearest"]))
+        for sl in list(strings)[:2]:
+            query(sl, rng.choice(["get", "event", "contains"]))
 
     def retunable():
         return [sl for sl in slots if sl not in strings]
@@ -522,6 +579,8 @@ def gen_held_session(rng, info, si):
             copies()
         if rng.random() < 0.15:
             query(named_key())
+        if rng.random() < 0.4:
+            same_name()
         if rng.random() < 0.15 and len(pids) < 4:
             open_pattern()
     for pid in pids:
@@ -563,7 +622,8 @@ class SessionState:
             if how == "registered":
                 self.names[op["name"]] = op["id"]
             if how != "builtin":
-                X("M (HScale %d %s (mkScale %s %s))" % (oid, slit(op.get("name") or "unnamed scale"), zlist(op["semis"]), zlit(op["osize"])))
+                regname = "major" if how == "weighted-unnamed" else (op.get("name") or "unnamed scale")
+                X("M (HScale %d %s (mkScale %s %s))" % (oid, slit(regname), zlist(op["semis"]), zlit(op["osize"])))
         elif k == "scalecopy":
             src = self.scales[op["src"]]
             self.scales[op["id"]] = dict(src, semis=list(src["semis"]), how="copy:" + op["how"], oid=100 + op["id"],
@@ -839,6 +899,12 @@ def session_script(ops, upto):
                 L.append("s%d = Scale.byname(%r)" % (op["id"], op["name"]))
             elif op["how"] == "unnamed":
                 L.append("s%d = Scale(%r%s)" % (op["id"], op["semis"], "" if op["osize"] == 12 else ", octave_size=%d" % op["osize"]))
+            elif op["how"] == "weighted":
+                L.append("s%d = iso.WeightedScale(%r, %r, %r, octave_size=%d)" % (op["id"], op["semis"], [1.0 / len(op["semis"])] * len(op["semis"]), op["name"], op["osize"]))
+            elif op["how"] == "weighted-unnamed":
+                L.append("s%d = iso.WeightedScale(%r, %r)   # its default name is 'major'" % (op["id"], op["semis"], [1.0 / len(op["semis"])] * len(op["semis"])))
+            elif op["how"] == "fromnotes":
+                L.append("s%d = Scale.fromnotes(%r, name=%r, octave_size=%d)" % (op["id"], op["semis"], op["name"], op["osize"]))
             else:
                 L.append("s%d = Scale(%r, %r, octave_size=%d)" % (op["id"], op["semis"], op["name"], op["osize"]))
         elif k == "scalecopy":
